@@ -138,8 +138,11 @@ def mk_query_obstacles():
                 local, ori = sp, 0.0       # orientation 0: placement is a pure translation of every member
             else:
                 continue   # polygon shapes rotate about their centroid: placement is C04's business
-            out.append((oid, {"role": "static", "id": oid, "type": "PARKED_VEHICLE", "shape": local, "initial_state": spec.init_state(x=ax, y=ay, o=ori)},
-                        netgeo.shape_at(sp, ax, ay)))
+            osp = {"role": "static", "id": oid, "type": "PARKED_VEHICLE", "shape": local, "initial_state": spec.init_state(x=ax, y=ay, o=ori)}
+            if oid % 3 == 0:
+                # an obstacle that carries a (stale / foreign) lanelet assignment from elsewhere: the lookups are about geometry, not about what is stored
+                osp["initial_shape_lanelet_ids"] = [7]; osp["initial_center_lanelet_ids"] = [7]
+            out.append((oid, osp, netgeo.shape_at(sp, ax, ay)))
     return out
 
 
